@@ -1,15 +1,6 @@
-use dsi_progress_logger::no_logging;
 use sux::prelude::*;
-use sux::func::shard_edge::*;
-use sux::utils::FromIntoIterator;
 fn main() {
-    let n: usize = std::env::args().nth(1).unwrap().parse().unwrap();
-    let which = std::env::args().nth(2).unwrap();
-    if which == "a" {
-        let f = VBuilder::<usize, Box<[usize]>, [u64; 2], Mwhc3NoShards>::default().expected_num_keys(n).try_build_func(FromIntoIterator::from(0..n), FromIntoIterator::from(0..n), no_logging![]).unwrap();
-        assert_eq!(f.len(), n);
-    } else {
-        let g = VBuilder::<usize, BitFieldVec<usize>, [u64; 2], Mwhc3Shards>::default().expected_num_keys(n).try_build_func(FromIntoIterator::from(0..n), FromIntoIterator::from(0..n), no_logging![]).unwrap();
-        assert_eq!(g.len(), n);
-    }
+    let b: BitVec = (0..100).map(|i| i % 3 == 0).collect();
+    let s: SelectSmall<1, 9, RankSmall<1, 9>> = SelectSmall::<1, 9, _>::new(rank_small![1; b]);
+    println!("{:?}", s.select(3));
 }
